@@ -367,7 +367,176 @@ pub fn c02_node_case(ctx: &Ctx, c: &C02Node) -> Vec<Viol> {
     out
 }
 
+/// A peer that comes back on the same address with other cipher settings (process restart without a close
+/// message, before the other side timed it out): after the new handshake the connection must run on what was
+/// negotiated *now* - sealed unless both ends enable plain now, and with keys both ends hold.
+#[derive(Clone, Debug, Serialize, Deserialize)]
+pub struct C02Restart {
+    /// cipher masks (bit 0 plain, 1 aes128, 2 aes256, 3 chacha20): node N, peer P before, peer P after its restart
+    pub n: u8,
+    pub before: u8,
+    pub after: u8,
+    /// who dials first / after the restart: bit 0: P dials N first (else N dials P); bit 1: N is restarted instead of P
+    pub who: u8,
+    /// seconds between first establishment and the restart
+    pub wait: u32,
+}
+
+pub fn c02_restart_case(ctx: &Ctx, c: &C02Restart) -> Vec<Viol> {
+    ctx.eval();
+    let cj = || json!({"kind": "c02-restart", "case": c});
+    let mut out = vec![];
+    let plain_of = |m: u8| m & 1 != 0;
+    let compatible = |a: u8, b: u8| (plain_of(a) && plain_of(b)) || (a & b & 0xe) != 0;
+    // the pair before the restart is (n, before); afterwards it is (n, after) when P restarts and (after, before) when N does
+    let pair_after = if c.who & 2 == 2 { (c.after, c.before) } else { (c.n, c.after) };
+    if !compatible(c.n, c.before) || !compatible(pair_after.0, pair_after.1) {
+        return out;
+    }
+    let mk = |mask: u8, idx: usize| {
+        let mut cfg = base_config();
+        cfg.mode = Mode::Switch;
+        cfg.auto_claim = false;
+        cfg.claims = vec![["c2:a1:b7:5e:93:00/40", "c2:4d:e9:17:6b:00/40"][idx].to_string()];
+        cfg.crypto.algorithms = algo_list(mask & 0xf);
+        cfg
+    };
+    let mut sim: NetSim<Frame> = NetSim::new();
+    sim.add_node(&mk(c.n, 0), false);
+    sim.add_node(&mk(c.before, 1), false);
+    sim.record = true;
+    let (a0, a1) = (sim.addr(0), sim.addr(1));
+    if c.who & 1 == 1 {
+        sim.connect(1, a0);
+    } else {
+        sim.connect(0, a1);
+    }
+    sim.settle();
+    sim.run(c.wait as i64 % 200);
+    if !(sim.is_connected(0, 1) && sim.is_connected(1, 0)) {
+        out.push(Viol::new("c02-restart-setup", "first establishment failed".to_string(), cj()));
+        return out;
+    }
+    // the restart; the restarted process dials the other node
+    let (restarted, other, other_addr) = if c.who & 2 == 2 { (0usize, 1usize, a1) } else { (1usize, 0usize, a0) };
+    let (mask_r, mask_o) = if restarted == 1 { (c.after, c.n) } else { (c.after, c.before) };
+    sim.restart_node(restarted, &mk(mask_r, restarted), false);
+    sim.configure_peer(restarted, other_addr);
+    sim.settle();
+    // a handshake object lingering at the other node (it was the initiator less than 60 s ago) answers the new ping
+    // with its old peng until the linger minute is over; the restarted node keeps retrying meanwhile
+    // (observation O1: the two repeat at network speed; the simulated network drops what is in flight after 300
+    // deliveries per instant - loss is something a network may do - and the run goes on)
+    sim.storm_limit = 300;
+    let mut waited = 0;
+    while !sim.is_connected(restarted, other) && waited < 200 {
+        sim.tick();
+        waited += 1;
+    }
+    sim.run(2);
+    if sim.storms > 0 {
+        ctx.class("restart:handshake-repeat-loop-seen(O1)");
+        sim.storm = false;
+    }
+    sim.storm_limit = 20_000;
+    if !(sim.is_connected(0, 1) && sim.is_connected(1, 0)) {
+        out.push(Viol::new(
+            "restarted-peer-not-reconnected",
+            format!("after the restart of node {} and its new handshake the two nodes are not mutually connected", restarted),
+            cj(),
+        ));
+        return out;
+    }
+    let both_plain = plain_of(mask_r) && plain_of(mask_o);
+    let ra = sim.addr(restarted);
+    let algo = sim.nodes[other].node.verif_peers().iter().find(|p| p.addr == ra).map(|p| p.algorithm).unwrap_or("?");
+    if (algo == "PLAIN") != both_plain {
+        out.push(Viol::new(
+            "connection-runs-on-settings-of-an-earlier-handshake",
+            format!("node {} holds cipher {} for the restarted peer although plain is {} by both ends now", other, algo, if both_plain { "enabled" } else { "not enabled" }),
+            cj(),
+        ));
+    }
+    let mark = sim.wire_log.len();
+    let mac = |n: usize| [0xc2, [0xa1, 0x4d][n], [0xb7, 0xe9][n], [0x5e, 0x17][n], [0x93, 0x6b][n], 0x01];
+    let mut frames = vec![];
+    for k in 0..4usize {
+        let (from, to) = if k % 2 == 0 { (other, restarted) } else { (restarted, other) };
+        let body: Vec<u8> = (0..90usize).map(|i| ((i * 37 + k * 101 + 11) as u8) ^ 0x5c).collect();
+        let frame = eth_frame(mac(to), mac(from), None, &body);
+        sim.take_iface(0);
+        sim.take_iface(1);
+        sim.put_payload(from, frame.clone());
+        sim.settle();
+        let got = sim.take_iface(to);
+        if got != vec![frame.clone()] {
+            out.push(Viol::new(
+                "payload-not-delivered-byte-identical",
+                format!("after the restart: frame from node {} to node {}: receiver wrote {} frames", from, to, got.len()),
+                cj(),
+            ));
+        }
+        frames.push(frame);
+    }
+    sim.run(2);
+    if !both_plain {
+        for d in &sim.wire_log[mark..] {
+            if d.data.first() == Some(&0xff) {
+                continue;
+            }
+            if frames.iter().any(|f| find_window(&d.data, &f[12..], 8)) {
+                out.push(Viol::new("payload-cleartext-on-wire", format!("after the restart: 8 payload bytes appear in a datagram {}->{}", d.src, d.dst), cj()));
+                break;
+            }
+            for cl in ["c2:a1:b7:5e:93:00/40", "c2:4d:e9:17:6b:00/40"] {
+                let r: Range = cl.parse().unwrap();
+                if d.data.windows(5).any(|w| w == &r.base.data[..5]) {
+                    out.push(Viol::new("claim-cleartext-on-wire", format!("after the restart: claim {} appears in a datagram {}->{}", cl, d.src, d.dst), cj()));
+                }
+            }
+        }
+        // an unsealed datagram claiming the peer's address must not be delivered
+        let mut forged = vec![0u8];
+        forged.extend_from_slice(&eth_frame(mac(other), mac(restarted), None, b"forged cleartext frame"));
+        sim.take_iface(other);
+        sim.deliver_to(other, ra, forged);
+        if !sim.take_iface(other).is_empty() {
+            out.push(Viol::new("unsealed-datagram-delivered", "after the restart: a cleartext datagram from the peer's address was written to the interface".to_string(), cj()));
+        }
+    }
+    if let Some((n, p, _)) = sim.panics.first() {
+        out.push(Viol::new(format!("node-{}", p.sig()), format!("node {} panicked: {}", n, p.msg), cj()));
+    }
+    ctx.nontrivial(&(c.n, c.before, c.after, c.who, c.wait));
+    ctx.class(if both_plain { "restart:now-plain" } else if plain_of(c.before) && plain_of(c.n) && restarted == 1 { "restart:plain-to-sealed" } else { "restart:sealed" });
+    out
+}
+
 pub fn c02_node(ctx: &Ctx) {
+    {
+        let masks = [0xfu8, 0xe, 0x1, 0x2, 0x9, 0x6];
+        let mut cases = vec![];
+        for n in masks {
+            for before in masks {
+                for after in masks {
+                    for who in 0..4u8 {
+                        for wait in [0u32, 3, 70] {
+                            if ctx.quick() && wait == 3 {
+                                continue;
+                            }
+                            cases.push(C02Restart { n, before, after, who, wait });
+                        }
+                    }
+                }
+            }
+        }
+        let total = cases.len() as u64;
+        ctx.par_items(&cases, |_, c| {
+            let v = c02_restart_case(ctx, c);
+            ctx.report(v);
+        });
+        ctx.subspace("node level: peer restarts on the same address with other cipher settings (6 x 6 x 6 cipher lists x who dials / who restarts x 0 / 3 / 70 s uptime)", total, true);
+    }
     let n: u32 = ctx.tier.pick(300, 4_000);
     ctx.proptest("pt-c02-node", n, || (any::<[u8; 3]>(), any::<u64>(), any::<u8>()), |(algos, seed, frames)| {
         let c = C02Node { algos: [algos[0] & 0xf, algos[1] & 0xf, algos[2] & 0xf], seed: *seed, frames: *frames };
@@ -1119,6 +1288,7 @@ pub fn replay(ctx: &Ctx, case: &Value) {
     let v = match case["kind"].as_str() {
         Some("c01-node") => serde_json::from_value::<C01Node>(case["case"].clone()).map(|c| c01_node_case(ctx, &c)).unwrap_or_default(),
         Some("c01-plain") => serde_json::from_value::<C01Plain>(case["case"].clone()).map(|c| c01_plain_case(ctx, &c)).unwrap_or_default(),
+        Some("c02-restart") => serde_json::from_value::<C02Restart>(case["case"].clone()).map(|c| c02_restart_case(ctx, &c)).unwrap_or_default(),
         Some("c02-node") => serde_json::from_value::<C02Node>(case["case"].clone()).map(|c| c02_node_case(ctx, &c)).unwrap_or_default(),
         Some("c03-node") => c03_node_case(ctx, case["k"].as_u64().unwrap_or(0) as u32, case["newer_between"].as_bool().unwrap_or(false), case["receiver_is_initiator"].as_bool().unwrap_or(false)),
         Some("c05-node") => serde_json::from_value::<C05Node>(case["case"].clone()).map(|c| c05_node_case(ctx, &c)).unwrap_or_default(),
